@@ -189,6 +189,7 @@ func vh_C07_L3_receiver_skip_exact() {
 		r.forwardTSNForOrdered(next16 + d16)
 		vassert(r.nextSSN == next16+d16+2, "a stale skip does not move the cursor back")
 	}
+	vassert(len(r.orderedMIDMap) == len(r.orderedMID), "a message read from below the skip point leaves nothing behind in the message index")
 	vobserve("d", uint64(d16))
 	vcover("end")
 }
